@@ -131,7 +131,7 @@ def draw_faults(r, kind, data, readmap):
                 pos = r.randrange(max(1, len(data)))
                 faults.append(["set", pos, bytes(r.getrandbits(8) for _ in range(r.randint(1, 8))).hex()])
             kinds.append("flip")
-        elif c < 0.75:
+        elif c < 0.72:
             sub = r.random()
             if sub < 0.4 and ints:
                 cand = [rw for rw in ints if rw[1] == 4] or ints
@@ -168,6 +168,18 @@ def draw_faults(r, kind, data, readmap):
                     tgt = r.choice([len(data), len(data) - 1, pos, max(0, pos - 4)])
                     faults.append(["set", pos, struct.pack("<I", tgt & 0xFFFFFFFF).hex()])
                     kinds.append("offset-to-eof-or-self")
+        elif c < 0.80 and ints:
+            # composite: a declared count made huge AND every terminator in the tail of the file removed (each harmless alone:
+            # the huge count normally ends at EOF with an error, the unterminated string normally just ends at EOF)
+            cand = [rw for rw in ints if rw[1] == 4] or ints
+            pos, w = r.choice(cand)
+            v = r.choice([0xFFFFFFFF, 0x7FFFFFFF, 0x00FFFFFF]) & ((1 << (8 * w)) - 1)
+            faults.append(["set", pos, v.to_bytes(w, "little").hex()])
+            cut = r.choice([len(data) // 2, (3 * len(data)) // 4, max(0, len(data) - 64), max(0, len(data) - 16)])
+            for i in range(cut, len(data)):
+                if data[i] == 0 and not (pos <= i < pos + w):
+                    faults.append(["set", i, "41"])
+            kinds.append("grow-count+unterminated-tail")
         elif c < 0.84 and blobs:
             # one character of a bulk-read region (string pool, string data) replaced by a character that quoting,
             # escaping or markup code treats specially
